@@ -23,6 +23,11 @@ EXPLANATION = (
 LEVELS_INFO_UP = {'info', 'warning', 'warn', 'error', 'exception', 'critical', 'fatal', 'log'}
 SECRET_ATTRS = {'password', 'credential', 'credentials', 'key_material', 'key_value', 'buffer', 'private_key', 'secret', 'plain_text', 'cipher_text',
                 'derivation_data', 'signature_data', 'iv_counter_nonce', 'auth_additional_data', 'auth_tag', 'key_block', 'certificate_value', 'secret_data'}
+# reviewed third-party calls whose exception text quotes the input they were processing: attribute name -> predicate on the call
+QUOTING_CALLS = {
+    # ConfigParser.get(section, option): InterpolationSyntaxError / InterpolationMissingOptionError quote the raw value of the option
+    'get': lambda c: len(c.args) >= 2 and 'conf' in U(c.func.value).lower(),
+}
 SOURCE_CALL_SUFFIX = ('.recv', '._receive_request', '._receive_bytes', '._recv_all', '.urandom', '.private_bytes', '.public_bytes', '.finalize', '.derive',
                       '.generate_private_key', '.generate_key', '.encrypt', '.decrypt', '.sign', '.wrap', '.aes_key_wrap', '.getpeercert')
 PROPAGATORS = {'str', 'repr', 'bytes', 'bytearray', 'format', 'hexlify', 'binascii.hexlify', 'b2a_hex', 'join', 'decode', 'encode', 'hex', 'list', 'tuple', 'dict', 'hexlify_bytearray'}
@@ -75,11 +80,27 @@ class Taint:
                     continue
                 if isinstance(val, ast.AST):
                     out += self.expr(val, dn, depth + 1)
+                elif isinstance(val, tuple) and val[0] == 'exc':
+                    out += self.exception_text(dn)
                 elif isinstance(val, tuple) and val[0] in ('iter', 'unpack', 'with') and isinstance(val[1], ast.AST):
                     out += self.expr(val[1], dn, depth + 1)
                 elif isinstance(val, tuple) and val[0] == 'aug':
                     out += self.expr(val[1].value, dn, depth + 1) + self.var_before(dn, name, depth + 1)
         self.memo[key] = out
+        return out
+
+    def exception_text(self, handler_node):
+        """Third-party calls whose exceptions quote the very value they were reading (reviewed table): an exception caught around such a call
+        carries that value in its text."""
+        h = handler_node.stmt if handler_node is not None else None
+        tr = getattr(h, '_parent', None)
+        if not isinstance(tr, ast.Try):
+            return []
+        out = []
+        for st in tr.body:
+            for c in ast.walk(st):
+                if isinstance(c, ast.Call) and isinstance(c.func, ast.Attribute) and c.func.attr in QUOTING_CALLS and QUOTING_CALLS[c.func.attr](c):
+                    out.append('text of an exception raised by %s (quotes the raw option value, e.g. a password containing %%)' % U(c.func))
         return out
 
     def var_before(self, node, name, depth):
@@ -315,7 +336,7 @@ def run(ctx):
                 reasons = []
                 for a in list(c.args) + [k.value for k in c.keywords]:
                     # the exception object of logger.exception(e)/error(e) is clean by R2 + assumption
-                    if isinstance(a, ast.Name) and node is not None and any(isinstance(v, tuple) and v[0] == 'exc' for v in ta.rd.values(node, a.id)):
+                    if isinstance(a, ast.Name) and node is not None and any(isinstance(v, tuple) and v[0] == 'exc' for v in ta.rd.values(node, a.id)) and not ta.var(node, a.id):
                         continue
                     reasons += ta.expr(a, node) if node is not None else []
                 ctx.check(not reasons, 'C20.R1', '%s|logger.%s|%s' % (q, level, sorted(set(reasons))), site, 'logger.%s arguments carry no secret' % level,
